@@ -74,6 +74,14 @@ CHECKS = {
          "each of 15 message kinds is paired with every other (and tripled in thorough); every interleaving with <=2-3 deviations at lock, channel and shared-object method-entry points is executed on the real handlers; a conflicting overlap of two activations on the same shared object without a common lock, a panic, a deadlock, or an answer that no sequential order produces is a violation; the harness dispatches handlers exactly as tla/Dispatch.tla allows, and every TLC behaviour for <=3 (thorough: 4) messages is replayed against the real dispatcher with gated stubs",
          "trusted: overlay/vrt, cmd/vinstr (syntactic writer classification), tla/Dispatch.tla as the model of jrpc2's dispatch; interleaving granularity = synchronisation operations and shared-object method entries; sequential specification = the same build on one thread",
          "DESIGN.md §4 C10, Appendix A, §8.4"),
+ 'C15': ("bounded-exhaustive enumeration of class hierarchies (every parent-set assignment over 2/3 classes incl. cycles) x alias shapes x wrapper types x file layouts on the real server against a cycle-safe transitive-closure model",
+         "for every inheritance graph over two (quick) or three (thorough) classes, every alias shape (none, one, chain, cycle) and wrapper (T, T[], table<string,T>), in one or two files, member completion behind v. / v[1]. / v[\"k\"]. must offer exactly the fields of the class and all its ancestors plus the member assigned through the variable, member go-to-definition must reach the field line, and cyclic hierarchies / alias cycles must not crash or hang (worker crash attribution)",
+         "trusted: the transitive-closure model in checks/c15.go; other completion labels are ignored; for a variable typed by a cyclic alias only liveness is required",
+         "DESIGN.md §4 C15"),
+ 'C16': ("bounded-exhaustive derivation enumeration of the documented annotation grammar (all type expressions up to a node bound in every statement kind) against an independent reference reader (canonical S-expressions), print/re-read round trip, and all single-token corruptions of documented lines between good neighbours on the real server",
+         "every documented statement kind with every type expression of <=3/4 constructor nodes must be accepted as one statement whose understood tree equals the reference tree and whose printed form reads back to the same tree; every single-token corruption of 11 documented lines, embedded between good annotation lines above a declaration, must leave the Lua diagnostics unchanged, put any type-18 warning on the corrupted line only, and leave the neighbouring class members understood",
+         "trusted: internal/annref (grammar of docs/manual/annotate.md: [] binds tighter than |, parentheses group, fun return lists extend to the end of the type)",
+         "DESIGN.md §4 C16"),
 }
 NOT_YET = "check not built yet in this round (planned: see DESIGN.md section 4); no claim is made"
 
